@@ -413,7 +413,7 @@ pub fn all_configs() -> Vec<Cfg> {
 }
 
 pub fn run(ctx: &mut Ctx) {
-    ctx.rule = "complete product: operation (create/assert) x requested rk,up,uv (8) x verification capability (none, unconfigured, configured) x presence capability (2) x user-validation outcome (4 presence/verification results + 3 error codes) x pin-auth (2) x request handed over as a value / through its CBOR encoding with default-valued options omitted (and the emptied options map omitted) x store content (matching credentials present/absent; for assertions also with a further credential of the RP put in front of the others while the user is being asked; create: exclude list absent/naming a held credential), each on a fresh authenticator (and, for verification requests without the capability, also on one that served a verified ceremony while the capability was still configured) with call-logging doubles; plus the authenticator-API product through the sealed Ctap2Api trait; plus the same through Client (UV requirement x capability x outcome x content x rk; assertions also with an allow list of ten descriptors); plus assertions on a store whose items convert into passkeys fallibly (1-3 items x convertible or not x allow list shapes): the item shown must be the credential that signs. Every configuration is distinct and non-trivial.".into();
+    ctx.rule = "complete product: operation (create/assert) x requested rk,up,uv (8) x verification capability (none, unconfigured, configured) x presence capability (2) x user-validation outcome (4 presence/verification results + 3 error codes) x pin-auth (2) x request handed over as a value / through its CBOR encoding with default-valued options omitted (and the emptied options map omitted) x store content (matching credentials present/absent; for assertions also with a further credential of the RP put in front of the others while the user is being asked; create: exclude list absent/naming a held credential), each on a fresh authenticator (and, for verification requests without the capability, also on one that served a verified ceremony while the capability was still configured) with call-logging doubles; plus the authenticator-API product through the sealed Ctap2Api trait; plus the same through Client (UV requirement x capability x outcome x content x rk; assertions also with an allow list of ten descriptors); plus assertions on a store whose items convert into passkeys fallibly (1-3 items x convertible or not x allow list shapes): the item shown must be the credential that signs. Every configuration is distinct and non-trivial. Since round 8: 480 configurations on hmac-secret authenticators with a PRF input.".into();
     ctx.exhaustive = Some(true);
     ctx.assumptions = vec![
         "'consent is missing' = verification requested without configured capability, or create with up=false, or the validation step returned an error, or it did not report a presence/verification that was requested".into(),
